@@ -26,6 +26,10 @@ GOOD_SOURCES = ('L2Entry::allocation', 'L2Entry::compressed_range', 'Table::get_
 
 def run(ctx, rep):
     f = ctx.lib
+    from . import span
+    rep.rule('C03.4', 'the host-cluster span of a compressed extent is exactly the clusters it touches (allocation(), and releases computed in place)')
+    span.allocation_rule(f, rep, 'C03.4')
+    span.release_rule(f, rep, 'C03.4')
     P = Program(f)
     rep.explanation = (
         'C03 is decided in part: the COPIED flag on every installed mapping (bit provenance), the fate of displaced '
